@@ -181,14 +181,24 @@ def run_case(case):
         if st["k"] == "leaf" and st.get("kind", "tensor") == "tensor" and st["out"] in flags and flags[st["out"]] and st["out"] in it.env \
                 and mgrun.is_tensor(it.env[st["out"]]):
             st["kind"] = "array"
+            st["compact"] = not st.get("nocopy")
             st.pop("constant", None)
             replaced.add(st["out"])
     if replaced:
+        vt = {}   # is the name bound to a Tensor in the variant program?
         for st in p2:
-            if st["k"] == "call" and st.get("sp") == "meth" and st["a"][0][1] in replaced:
-                st["sp"] = "mg"
-            if st["k"] == "call" and st.get("sp") in ("np", "op") and not any(r in types and types[r][0] == "tensor" and r not in replaced for r in mgrun.stmt_refs(st)):
-                st["sp"] = "mg"   # numpy itself would answer when no tensor is left among the operands
+            if st["k"] == "leaf":
+                vt[st["out"]] = st.get("kind", "tensor") == "tensor"
+            elif st["k"] == "call":
+                refs = mgrun.stmt_refs(st)
+                anyt = any(vt.get(r, False) for r in refs)
+                first = st["a"][0] if st.get("a") else None
+                first_t = isinstance(first, list) and first[:1] == ["r"] and vt.get(first[1], False)
+                if st.get("sp") == "meth" and not first_t:
+                    st["sp"] = "mg"
+                if st.get("sp") in ("np", "op") and not anyt:
+                    st["sp"] = "mg"   # numpy itself would answer when no tensor is left among the operands
+                vt[st["out"]] = anyt or (st.get("sp", "mg") == "mg" and st["fn"] not in ("getitem", "T", "flatten"))
         it2, types2 = run_prog(p2)
         g2 = mgrun.snapshot_grads(it2.env)
         for n, g in grads.items():
